@@ -43,6 +43,20 @@ def gen_cases(tier, seed):
         cases.append(asmgen.asm_case(0, seq)); tags.append("seq-reset")
         s = rnd.choice(pool)
         cases.append(asmgen.asm_case(0, [(1, s), (1, s), (1, s)])); tags.append("repeat")
+    # table-size classes: sources recording N labels for N around the growth steps of a hash table (3, 7, 14, 28, 56,
+    # 112, 224, 448 ...), valid and failing at the end, followed by sources that repeat them, share one label name, or
+    # only REFERENCE a label the predecessor defined
+    sizes = [1, 3, 4, 7, 8, 14, 15, 28, 29, 56, 57, 58, 112, 113, 200] + ([224, 225, 448, 449, 900, 2000] if tier != "quick" else [300])
+    for n in sizes:
+        big = "".join(f"v{k} .fill #{k % 100}\n" for k in range(n)) + "halt\n"
+        bigbad = "".join(f"v{k} .fill #{k % 100}\n" for k in range(n)) + "add r0 r0\n"
+        last = f"v{n - 1}"
+        followers = [big, f"ld r0 {last}\nhalt\n", f"{last} halt\n", f"ld r0 v0\nhalt\n", f"v0 halt\nbr v0\n", "halt\n"]
+        for first in (big, bigbad):
+            for f in followers:
+                cases.append(asmgen.asm_case(0, [(1, first), (1, f)])); tags.append("table-size")
+                cases.append(asmgen.asm_case(0, [(1, first), (1, f), (1, f)])); tags.append("table-size")
+            cases.append(asmgen.asm_case(0, [(1, first), (1, "a halt\n"), (1, first), (1, f"ld r0 {last}\nhalt\n")])); tags.append("table-size")
     return cases, tags, pool
 
 
@@ -59,7 +73,7 @@ def correspondence(ctx, violations, known_hits):
             alone[asmcommon.decode_case(c)[1][0][1]] = a[0]
     direct = 0
     for c, t, a in zip(cases, tags, ri):
-        if t in ("pair-reset", "seq-reset", "repeat") and a:
+        if t in ("pair-reset", "seq-reset", "repeat", "table-size") and a:
             srcs = asmcommon.decode_case(c)[1]
             for k, (reset, text) in enumerate(srcs):
                 if text in alone and k < len(a):
@@ -73,7 +87,7 @@ def correspondence(ctx, violations, known_hits):
         "rule": f"pool of {len(pool)} sources (valid, failing in the lexer, failing after labels were recorded, sharing label names, "
                 "case-differing labels, .break/.orig interleavings) : each alone, ordered pairs with a reset in between (all pairs in the "
                 "thorough tier), a third of them also WITHOUT reset (to tie the symbol-table model to the code), random sequences of "
-                "3-6 with resets, threefold repetition; plus a direct comparison of the implementation's answer for B in a sequence "
+                "3-6 with resets, threefold repetition; sources recording N labels for N around every growth step of a hash table (1..200 [..2000]) followed by sources that repeat them, share a label name or only reference a label of the predecessor; plus a direct comparison of the implementation's answer for B in a sequence "
                 "with its answer for B alone; distinct = distinct (sequence class, outcome, diagnostic)",
         "direct_history_comparisons": direct,
         "outcome_histogram": r["hist"], "samples": r["samples"], "mismatches": r["mismatches"], "profiles": list(profiles),
